@@ -1,8 +1,9 @@
 #!/bin/bash
+V="$(cd "$(dirname "$(readlink -f "$0")")/.." && pwd)"
 # behaviour-preserving control set: every check must stay silent on every refactoring
 # usage: tools/run_refactors.sh [budget-s]
 b="${1:-12}"; rc=0
-for f in /verif/refactors/http/refactor_*.diff; do echo "$f"; /verif/tools/check_refactor.sh "$f" "$b" C16 C17 || rc=1; done
-for f in /verif/refactors/ppobj/refactor_*.diff; do echo "$f"; /verif/tools/check_refactor.sh "$f" "$b" C10 C13 || rc=1; done
-for f in /verif/refactors/color/refactor_*.diff; do [ -e "$f" ] || continue; echo "$f"; /verif/tools/check_refactor.sh "$f" "$b" C08 C14 C10 || rc=1; done
+for f in "$V"/refactors/http/refactor_*.diff; do echo "$f"; "$V"/tools/check_refactor.sh "$f" "$b" C16 C17 || rc=1; done
+for f in "$V"/refactors/ppobj/refactor_*.diff; do echo "$f"; "$V"/tools/check_refactor.sh "$f" "$b" C10 C13 || rc=1; done
+for f in "$V"/refactors/color/refactor_*.diff; do [ -e "$f" ] || continue; echo "$f"; "$V"/tools/check_refactor.sh "$f" "$b" C08 C14 C10 || rc=1; done
 exit $rc
